@@ -705,6 +705,22 @@ class Peer:
             elif kind == "hdr_hard_bits":
                 # difficulty the header cannot meet (mainnet-like bits)
                 hs[k] = rp.header80(d["version"], d["prev"], d["root"], d["time"], bytes.fromhex("ffff001d"), d["nonce"])
+            elif kind == "hdr_weird_bits":
+                # a header whose compact target is negative / overflows / is zero (never valid), with a nonce whose hash is small
+                # enough for a reader that took the mantissa's sign bit as magnitude; the rest of the batch is re-mined on top of it
+                wb = WEIRD_BITS[fault.get("b", 0) % len(WEIRD_BITS)]
+                n_ = a
+                while True:
+                    cand = rp.header80(d["version"], d["prev"], d["root"], d["time"], wb, struct.pack("<I", n_ & 0xFFFFFFFF))
+                    if int.from_bytes(tm.sha256d(cand), "little") < (1 << 254):
+                        break
+                    n_ += 1
+                hs[k] = cand
+                prev = rp.header_hash(cand)
+                for j in range(k + 1, len(hs)):
+                    dj = rp.dec_header(hs[j])
+                    hs[j] = rp.grind(dj["version"], prev, dj["root"], dj["time"], dj["bits"], start_nonce=a)
+                    prev = rp.header_hash(hs[j])
             elif kind == "hdr_txcount":
                 counts[k] = 1 + a % 3
             elif kind == "hdr_relink_valid":
@@ -1284,7 +1300,9 @@ def run_step(sess, cl, peer, step, prop):
                     m["prev"] = r.getrandbits(256).to_bytes(32, "big")
                     blk.prev_block = m["prev"]
                 elif act == "bits":
-                    m["bits"] = r.choice([bytes.fromhex("ffff7f20"), bytes.fromhex("ffff001d"), bytes.fromhex("ffff7f1f")])
+                    # usual values, and compact encodings with the sign bit set, overflowing 256 bits, or denoting zero
+                    m["bits"] = r.choice([bytes.fromhex("ffff7f20"), bytes.fromhex("ffff001d"), bytes.fromhex("ffff7f1f")] + WEIRD_BITS)
+                    tr.probe("header_bits_" + ("weird" if m["bits"] in WEIRD_BITS else "usual"))
                     blk.bits = m["bits"]
         return
     if op == "getdata_layout":
@@ -1395,7 +1413,9 @@ def execute(plan, prop, trace):
 GENERIC_FAULTS = ["eof_at", "flip", "wrong_magic", "bad_checksum", "lie_long", "lie_short_consistent", "lie_short", "dup_env", "drop_env", "garbage_after", "close_after"]
 MB_FAULTS = ["mb_flip_hash", "mb_flip_flag", "mb_flip_total", "mb_flip_root", "mb_drop_hash", "mb_extra_hash", "mb_swap_hashes", "mb_wrong_block",
              "tx_wrong", "tx_omit", "tx_reorder", "tx_unmatched"]
-HDR_FAULTS = ["hdr_bad_pow", "hdr_break_link", "hdr_hard_bits", "hdr_txcount", "hdr_relink_valid"]
+HDR_FAULTS = ["hdr_bad_pow", "hdr_break_link", "hdr_hard_bits", "hdr_txcount", "hdr_relink_valid", "hdr_weird_bits"]
+# compact targets that consensus treats as invalid: negative (sign bit 0x00800000 set with a non-zero mantissa), overflowing 256 bits, zero
+WEIRD_BITS = [bytes.fromhex(x) for x in ("ffff8020", "00000121", "56349204", "ffff8021", "ffffff22", "00008001", "56340001", "000000ff", "ffff7f23")]
 
 BOUNDARY_LENS = [0, 1, 2, 0xFC, 0xFD, 0xFE, 0xFF, 0x100, 0xFFFF, 0x10000, 0x10001, 100000]
 SAMPLE_FILTERS = ["00", "0190c5d0", "00"]
@@ -1659,6 +1679,11 @@ def enumerate_c17(tier, seed):
             base = _c17_base(seed, [1, 2, 1, 3, 1, 2])
             base["steps"] = [{"op": "getheaders", "trigger": "getheaders", "start": "base", "max": 2000, "fault": {"kind": kind, "a": k, "b": 0}}]
             base["enum"] = "headers"
+            yield base
+        for wb in range(len(WEIRD_BITS)):
+            base = _c17_base(seed, [1, 2, 1, 3, 1, 2])
+            base["steps"] = [{"op": "getheaders", "trigger": "getheaders", "start": "base", "max": 2000, "fault": {"kind": "hdr_weird_bits", "a": k, "b": wb}}]
+            base["enum"] = "headers-weird-bits"
             yield base
 
 
